@@ -10,6 +10,7 @@ R5  field protection (lockset): parent, waiters, disconnecting, children of a no
 R6  no stale registration: an element is appended to n->waiters (or a child to parent->children by the constructor) only in a critical section of
     the note's mutex in which the notified flag was (re-)read - otherwise a notification that completed in between leaves the new waiter/child
     on an already drained note, never to be woken/notified.  (Appends made by nsync_note_free's adoption are judged by C09.R5.)
+R8  after storing the flag the marker waits for the note's child list to drain on every path to its return, parent or no parent.
 R7  when nsync_note_notify returns the note is notified: every path through the notifier calls the marker, took the "not > 0" edge of the
     note-time test under the mutex, or waits (nsync_mu_wait on a condition reading the flag) for the notifier already in progress.
 Cross-thread histories ("no observer ever sees it un-notified again", descendants notified once no notification is in progress) are not decided."""
@@ -17,6 +18,7 @@ from .. import util, ir as IR, objmodel, wakeshape
 from ..bounds import _guards, _norm_cmp
 from ..report import Violation, AnalysisBroken
 from ..symex import Ptr
+from ..cfg import paths_avoiding
 
 PROTECTED = ('nsync_note_s_.parent', 'nsync_note_s_.waiters', 'nsync_note_s_.disconnecting', 'nsync_note_s_.children')
 MU = 'nsync_note_s_.note_mu'
@@ -127,6 +129,33 @@ def check_notify_returns_notified(mod, rep, rid):
     if n == 0:
         raise AnalysisBroken('%s: the notifier (function that locks the note and calls the marker) was not found' % rid)
 
+def check_marker_waits_for_children(mod, rep, rid):
+    """R8 - "once no notification of it or of an ancestor is still in progress all its descendants are notified".  The marker (the function that
+    stores notified = 1) skips children that another thread is already disconnecting; those finish on their own and leave the child list.  So
+    on every path from the store of the flag to the marker's return there is a conditional wait on the note's mutex (the wait for an empty
+    child list) - whether or not the note has a parent."""
+    NOTIFIED = 'nsync_note_s_.notified'
+    n = 0
+    for f in mod.defined.values():
+        stores = [i for i in f.real_insts() if i.op == 'store' and i.ord != 'na' and IR.is_int(i.ops[0]) and IR.ival(i.ops[0]) == 1
+                  and util.last_field(util.addr_class(mod, f, i.ops[1])) == NOTIFIED]
+        for st_ in stores:
+            def is_wait(i):
+                if i.op != 'call':
+                    return False
+                if i.callee in ('nsync_mu_wait', 'nsync_mu_wait_with_deadline', 'nsync_cv_wait', 'nsync_cv_wait_with_deadline'):
+                    return True
+                h = mod.func(i.callee) if i.callee else None          # a static helper that does the waiting
+                return h is not None and not h.decl and h.internal and any(j.op == 'call' and j.callee in ('nsync_mu_wait', 'nsync_cv_wait') for j in h.real_insts())
+            skip = paths_avoiding(f, st_, lambda i: i.op == 'ret', is_wait)
+            n += 1
+            rep.instance(rid, '%s: wait for the child list to drain on every path after the flag store at %s: %s' % (f.name, st_.where(), skip is None)); rep.oblig(rid, skip is None)
+            if skip is not None:
+                rep.violate(Violation(rid, st_.where(), '%s can return after marking the note without waiting for its child list to drain: children that were skipped because another thread is disconnecting them are still un-notified when nsync_note_notify of the note (or of an ancestor) returns' % f.name,
+                                      site='%s/no-wait-for-children' % f.name))
+    if n == 0:
+        raise AnalysisBroken('%s: the store of the notified flag was not found' % rid)
+
 def run(ctx, rep):
     mod = ctx.mod('C')
     eng, runs = objmodel.analyse(ctx)
@@ -166,6 +195,14 @@ def run(ctx, rep):
             elif r.field in PROTECTED:
                 exempt = r.obj.base.startswith('heap:')
                 ok = exempt or holds(r.held, r.obj)
+                if ok and not exempt and r.access in ('store', 'cas'):
+                    # a write needs the mutex in write mode: two readers can be inside together
+                    mode = next((md for m, md in r.held.items() if isinstance(m, Ptr) and m.base == r.obj.base and m.path[:-1] == r.obj.path and m.path and m.path[-1][1] == MU), None)
+                    if mode != 'W':
+                        rep.instance('C08.R5', '%s of %s at %s under a %s hold [%s]' % (r.access, r.field, r.where(), mode, r.entry)); rep.oblig('C08.R5', False)
+                        rep.violate(Violation('C08.R5', r.where(), '%s of %s while the note\'s mutex is held in read mode only: two threads can be in that critical section together (e.g. two creators of children of the same parent) and the list is corrupted / a child is lost and never notified [entry %s]' % (r.access, r.field, r.entry),
+                                              site='%s/write-under-read-lock-%s' % (r.inst.fn.name, r.field.split('.')[1])))
+                        continue
                 rep.instance('C08.R5', '%s of %s at %s [%s]' % (r.access, r.field, r.where(), r.entry)); rep.oblig('C08.R5', ok)
                 if not ok:
                     rep.violate(Violation('C08.R5', r.where(), '%s of %s without holding that note\'s mutex (held: %s) [entry %s]' % (r.access, r.field, [m.base for m in r.held] or 'nothing', r.entry),
@@ -231,6 +268,8 @@ def run(ctx, rep):
     if not pt:
         rep.oblig('C08.R4', False)
         rep.violate(Violation('C08.R4', '%s:%d in nsync_note_new' % (IR.rel(fn.file), fn.line), 'the parent\'s earlier expiry is never inherited', site='nsync_note_new/expiry-inherit'))
+    rep.rule('C08.R8', 'after marking a note the marker waits, on every path, for the child list to drain (children being disconnected elsewhere)')
+    check_marker_waits_for_children(mod, rep, 'C08.R8')
     rep.rule('C08.R7', 'the notifier returns only after marking the note, seeing it notified, or waiting for the marking notifier')
     check_notify_returns_notified(mod, rep, 'C08.R7')
     rep.floor('C08.R2', 3)
